@@ -208,7 +208,9 @@ fn generate(g: &mut Gen, thorough: bool) {
         let r = g.record(h, n, comp, n % 2 == 0); g.push(format!("rt {r}"));
     }
     let mut bounds: Vec<usize> = vec![];
-    for c in [128usize, 2048, 4096, 16384, 65536] { for d in 0..=(if thorough { 40 } else { 9 }) { bounds.push(c + d); if c >= d + 1 { bounds.push(c - d - 1); } } }
+    for c in [128usize, 2048, 4096, 16384, 65536] {
+        let dmax = if thorough { 40 } else if c >= 16384 { 1 } else { 9 };
+        for d in 0..=dmax { bounds.push(c + d); if c >= d + 1 { bounds.push(c - d - 1); } } }
     if thorough { bounds.push(1 << 20); bounds.push((1 << 20) + 3); } else { bounds.push(200_000); }
     for (i, &n) in bounds.iter().enumerate() {
         let hs: Vec<usize> = if thorough && n < 70000 { HS.to_vec() } else { vec![HS[i % 5]] };
@@ -230,7 +232,7 @@ fn generate(g: &mut Gen, thorough: bool) {
         let r = g.record_s(h, n, true, true, 64); g.push(format!("cor {r} bits")); g.push(format!("cor {r} trunc"));
         if thorough { let s = g.rng.below(1000); g.push(format!("cor {r} burst {s}")); } } }
     // --- file-level: flips and truncations through Reader (both hints), Iter and Writer::open
-    let nf = if thorough { 160 } else { 40 };
+    let nf = if thorough { 160 } else { 28 };
     for i in 0..nf {
         let h = HS[i % 5];
         let n = match i % 4 { 0 => g.rng.below(40) as usize, 1 => 100 + g.rng.below(300) as usize, 2 => 2040 + g.rng.below(30) as usize, _ => 4090 + g.rng.below(30) as usize };
@@ -282,7 +284,8 @@ fn main() {
         std::fs::read_to_string(&a.rest[0]).expect("cases file").lines().filter(|l| !l.trim().is_empty()).map(|s| s.to_string()).collect()
     } else {
         let mut g = Gen { rng: Rng::new(a.seed), dir: dir.path(), cases: vec![] };
-        generate(&mut g, a.tier == "thorough");
+        // the generator runs the real compressor (oracle): a panic there is reported, not a crash
+        if catch(|| generate(&mut g, a.tier == "thorough")).is_none() { g.cases.push("rt 0 1 0 64 x z255 x00".into()); }
         g.cases
     };
     for c in &cases {
